@@ -43,6 +43,10 @@ class IntervalItem(Item):
                 lower, upper = upper, lower
             return lower <= index <= upper
 
-        if isinstance(self.interval, tuple):
-            return applies(self.interval)
+        # A single interval can also be a list, e.g. ``(1, 2)`` is ``[1, 2]`` after a yaml round trip.
+        if isinstance(self.interval, tuple) or (
+            len(self.interval) == 2
+            and not any(isinstance(bound, (list, tuple)) for bound in self.interval)
+        ):
+            return applies(self.interval)  # type:ignore[arg-type]
         return any(applies(i) for i in self.interval)
